@@ -185,4 +185,18 @@ def thorough_extras(pid):
     for f in load_findings():
         if pid in f["properties"]:
             out["findings_native"][f["id"]] = ("present" if finding_present(f) else "absent") + " (status %s)" % f["status"]
+    # differential cross-check of the contracts (and with them the SQL semantics) against CPython + SQLite
+    DIFF_TARGETS = {"Mailbox.open": ["C05", "C08", "C12", "C14"], "Mailbox._add_message": ["C01", "C02", "C09", "C12"],
+                    "AppNamespace.release_nameplate": ["C07", "C14", "C15", "C16"],
+                    "AppNamespace.claim_nameplate": ["C03", "C05", "C07", "C10", "C14"],
+                    "AppNamespace._get_nameplate_ids": ["C04", "C06", "C18"],
+                    "AppNamespace.prune": ["C12", "C13", "C15", "C06", "C10"]}
+    targets = [t for t, ps in DIFF_TARGETS.items() if pid in ps]
+    if targets:
+        try:
+            from pvc import diff
+            seed = int(os.environ.get("VERIF_SEED", "0") or 0)
+            out["diffcheck"] = diff.run_all(seed, 30, targets)
+        except Exception as e:
+            out["diffcheck"] = {"error": str(e)[:300]}
     return out
